@@ -184,7 +184,9 @@ func runScript(r *lib.Run, ops []hop, label string) ([]string, string) {
 			h.Lock()
 			before := len(h.LANRouters)
 			h.Unlock()
-			ret := deliver(s, h, rx, o.counter, o.eth, o.src, o.msg, o.hk)
+			ret, hkActual := deliverHK(s, h, rx, o.counter, o.eth, o.src, o.msg, o.hk)
+			o.hk = hkActual // the model is told what ProcessPacket really saw
+			c.op = o
 			h.Lock()
 			after := len(h.LANRouters)
 			h.Unlock()
@@ -195,7 +197,7 @@ func runScript(r *lib.Run, ops []hop, label string) ([]string, string) {
 				a := o.src.As16()
 				c.newRtr = hx(a[:])
 			}
-			if ret == "ok" && o.hk && (o.counter+1)%4 == 0 {
+			if ret == "ok" && o.hk && (o.counter+1)%4 == 0 && h.FindRouter(o.src).Addr.IP.IsValid() {
 				lastRA[o.src] = o.msg
 			}
 		case 'X':
@@ -460,6 +462,16 @@ func huntIP(rng *lib.Rand, m int) netip.Addr {
 	}
 }
 
+// specialEth: Ethernet sources with the group bit clear (Parse drops the others before any handler):
+// all-zero, our own MAC, the IPv4 router's MAC, device-like
+func specialEth(rng *lib.Rand) net.HardwareAddr {
+	for {
+		if m := specialMAC(rng); m[0]&1 == 0 {
+			return m
+		}
+	}
+}
+
 func genScript(rng *lib.Rand, n int, delay func() int, ras [][]byte) []hop {
 	var ops []hop
 	for i := 0; i < n; i++ {
@@ -481,6 +493,13 @@ func genScript(rng *lib.Rand, n int, delay func() int, ras [][]byte) []hop {
 				k = 0
 			}
 			o = hop{kind: 'R', counter: rng.Pick(3, 3, 3, 3, -1, 7, 0, 1, 2, 4), hk: !rng.Chance(8), src: rSrcs[k], eth: rEths[k], msg: ras[rng.Intn(len(ras))]}
+			if rng.Chance(25) { // address-like fields from the special value domain: Ethernet source and IPv6 source
+				o.eth = specialEth(rng)
+				if rng.Chance(50) {
+					a, _ := netip.AddrFromSlice(specialIP6(rng))
+					o.src = a
+				}
+			}
 		}
 		o.delay = delay()
 		ops = append(ops, o)
